@@ -24,19 +24,25 @@ set_option maxHeartbeats 4000000 in
 /-- `clock_gettime_safe(CLOCK_MONOTONIC)` returns `Err(x)`: the error is logged (`error!`), chronyd is not asked,
     NOTHING is sent, the poller state is unchanged; the thread waits on its mailbox as usual -/
 theorem clock_fails (e : IterEnv) (s : PollerState) (refid : Option Nat) (x : Value) (nowNs : Int) (inp : Nat → Value)
-    (log : List Value) (pos : Nat) (c : Expr) (body : List Stmt)
-    (hfw : findWhile Code.fn_chrony_poller__run_clock_error_bound_poller_stmts = some (c, body))
-    (hin : inputsAt inp pos [.enumv "Err" [x], e.recvRes]) (N : Nat) (hN : 60 ≤ N) (next : St → Res) :
-    ((evalBlock N (ctxP nowNs [] inp) frP body (pollerLoopSt e true s refid log pos)).popTo 5).loopNext next
-    = next (pollerLoopSt e (!e.isAbort) s refid
-        (log ++ [evClockRead (clockId 6) (.enumv "Err" [x]), evWait (.duration e.sleepNs)]) (pos + 2)) := by
-  obtain ⟨M, rfl⟩ : ∃ M, N = M + 60 := ⟨N - 60, by omega⟩
-  simp [rs_eval, rs_code] at hfw
-  obtain ⟨rfl, rfl⟩ := hfw
-  simp only [ctxP, linuxUses_eq]
-  simp [inputsAt] at hin
-  obtain ⟨h0, h1⟩ := hin
-  poll_tie
-  poll_finish
+    (log : List Value) (pos : Nat) (pre : List Stmt) (c : Expr) (body : List Stmt)
+    (hfl : findLoop Code.fn_chrony_poller__run_clock_error_bound_poller_stmts = some (pre, c, body))
+    (hin : inputsAt inp pos [.enumv "Err" [x], e.recvRes]) (K : Nat) (hK : 60 ≤ K) :
+    turnIs (ctxP nowNs [] inp) frP c body K
+      (evalWhile (K + 2) (ctxP nowNs [] inp) frP c body (topP nowNs inp pre e s refid log pos))
+      (if e.isAbort = true then
+         .done (log ++ [evClockRead (clockId 6) (.enumv "Err" [x]), evWait (.duration e.sleepNs)]) (pos + 2)
+       else .next (topP nowNs inp pre e s refid
+         (log ++ [evClockRead (clockId 6) (.enumv "Err" [x]), evWait (.duration e.sleepNs)]) (pos + 2))) := by
+  cases refid <;>
+  · obtain ⟨M, rfl⟩ : ∃ M, K = M + 60 := ⟨K - 60, by omega⟩
+    simp [rs_eval, rs_code] at hfl
+    obtain ⟨rfl, rfl, rfl⟩ := hfl
+    simp only [ctxP, topP, linuxUses_eq]
+    simp [inputsAt] at hin
+    obtain ⟨h0, h1⟩ := hin
+    rw [evalWhile_true (h := by
+      simp [rs_eval, rs_code, pollerArgs, pollerValue, contextValue, optPhcValue])]
+    poll_tie
+    poll_finish
 
 end ClockBound.Rs.PollerProof
